@@ -1,9 +1,9 @@
 package rules
 
 import (
-	"os"
 	"go/ast"
 	"go/types"
+	"os"
 	"strings"
 
 	"gengoverif/checker/internal/core"
